@@ -179,7 +179,29 @@ def expr(e):
             raise Unsupported("slice")
         return "(.sub %s %s)" % (expr(e.value), expr(e.slice))
     if isinstance(e, (ast.List, ast.Tuple)):
+        if any(isinstance(x, ast.Starred) for x in e.elts):
+            # `[*a, b, *c]` is `list(a) + [b] + list(c)`
+            parts, plain = [], []
+            for x in e.elts:
+                if isinstance(x, ast.Starred):
+                    if plain:
+                        parts.append("(.lst %s)" % llist(plain))
+                        plain = []
+                    parts.append("(.call (.name \"list\") [%s] [] [])" % expr(x.value))
+                else:
+                    plain.append(expr(x))
+            if plain:
+                parts.append("(.lst %s)" % llist(plain))
+            acc = parts[0]
+            for q in parts[1:]:
+                acc = "(.bin .add %s %s)" % (acc, q)
+            return acc
         return "(.lst %s)" % llist([expr(x) for x in e.elts])
+    if isinstance(e, ast.ListComp):
+        if len(e.generators) != 1 or e.generators[0].is_async:
+            raise Unsupported("comprehension with several generators")
+        g = e.generators[0]
+        return "(.comp %s %s %s %s)" % (expr(e.elt), expr(g.target), expr(g.iter), llist([expr(c) for c in g.ifs]))
     raise Unsupported("expression %s" % type(e).__name__)
 
 
@@ -197,8 +219,15 @@ def exc_name(e):
 
 def fun_parts(node):
     a = node.args
-    if a.vararg or a.kwarg or a.kwonlyargs:
-        raise Unsupported("*args / **kwargs / keyword-only parameters")
+    if a.kwonlyargs:
+        raise Unsupported("keyword-only parameters")
+    # `*args` / `**kwargs` that the body never mentions (the `setup(self, settings, *args, **kwargs)`
+    # convention) are dropped; a body that uses them is outside the fragment
+    extra = {x.arg for x in (a.vararg, a.kwarg) if x is not None}
+    if extra:
+        for n in ast.walk(node):
+            if isinstance(n, ast.Name) and n.id in extra:
+                raise Unsupported("*args / **kwargs used in the body")
     params = [x.arg for x in list(a.posonlyargs) + list(a.args)]
     defaults = [None] * (len(params) - len(a.defaults)) + list(a.defaults)
     ds = []
